@@ -1,5 +1,45 @@
-from codecmode import run
+import json, os
+import codec, httpdrv
+from codecmode import MODELLED
+from generic import run_check
+from lib import sh, env_go, Broken
 
 
 def main(tier, seed, replay):
-    return run("C06", "c06", tier, seed, replay, "Props.C06", "corr:missing-fields (model decoders vs the readers on mutated documents: error class, field set, partial value)")
+    def build(work):
+        exe, schema = codec.build_driver(work)
+        return exe, dict(VERIF_SCHEMA=schema, VERIF_MODE="c06")
+
+    def post(run, rep, out):
+        # the lenient / strict generated CLIENT (oracle on the implementation only): a lenient client receives the partially
+        # filled value with no error; a strict one the exact set of missing fields together with the value
+        hwork = os.path.join(run.work, "http")
+        os.makedirs(hwork, exist_ok=True)
+        exe, schema = httpdrv.build_driver(hwork)
+        hout = os.path.join(hwork, "out")
+        rc, o = sh([exe, "--out", hout, "--tier", tier, "--seed", str(seed)], cwd=hwork,
+                   env=env_go(dict(VERIF_SCHEMA=schema, VERIF_MODE="c06http")), timeout=1800)
+        if rc != 0:
+            raise Broken("correspondence", "client-level missing-field driver failed (exit %s)" % rc, o[-4000:])
+        hrep = json.load(open(os.path.join(hout, "report.json")))
+        for f in hrep["failures"]:
+            run.fail_input(f["sig"], f["what"], f["case"], site=f.get("site"), impl=f.get("impl"))
+        run.cov["client_level"] = dict(evaluations=hrep["evaluations"], distinct_nontrivial=hrep["distinct_nontrivial"],
+                                       rule=hrep["rule"], input_distribution=hrep["distribution"], samples=hrep["samples"][:3])
+        run.log("client level: %d evaluations, %d oracle failures" % (hrep["evaluations"], len(hrep["failures"])))
+
+    codec.write_fam_env()
+    mods = ["Props.C06"]
+    if os.path.exists(os.path.join(os.path.dirname(os.path.dirname(os.path.abspath(__file__))), "coq", "Props", "C06_ror2.v")):
+        mods.append("Props.C06_ror2")
+    return run_check(
+        "C06", tier, seed, replay,
+        tables=["TablesCodec"],
+        model_targets=["Corr/CodecCorr.vo"],
+        prop_module=mods,
+        driver="codecdrv", build=build, post=post,
+        corr_name="corr:missing-fields (model decoders vs the readers on mutated documents: error class, field set, partial value)",
+        trusted=MODELLED + ["the untyped reader and the generated client (lenient / strict) are decided by the property oracle on the implementation"],
+        assume=[],
+        coqchk_modules=["GR." + m for m in mods],
+    )
